@@ -46,7 +46,7 @@ pub fn dispatch(line: &str) -> String {
         "entryvcd" => entry::entryvcd(&toks),
         "entryfile" => entry::entryfile(&toks),
         "vcdcut" => cut::vcdcut(&toks),
-        "vcd" => vcdcmd::vcd(&toks),
+        "vcd" | "vcdmt" => vcdcmd::vcd(&toks),
         "store" => store::store(&toks),
         "getoffset" => c05::getoffset(&toks),
         "getoffset_full" => c05::getoffset_full(&toks),
